@@ -93,9 +93,9 @@ macro_rules! parts {
     }};
 }
 
-static SYS: LockStep = LockStep { property: "C07", probes: true, seed: Some(&seed), via_feed: false };
-static SYS_BLANK: LockStep = LockStep { property: "C07", probes: true, seed: None, via_feed: false };
-static SYS_MED: LockStep = LockStep { property: "C07", probes: false, seed: Some(&seed), via_feed: false };
+static SYS: LockStep = LockStep { property: "C07", probes: true, seed: Some(&seed), via_feed: false, merged: false };
+static SYS_BLANK: LockStep = LockStep { property: "C07", probes: true, seed: None, via_feed: false, merged: false };
+static SYS_MED: LockStep = LockStep { property: "C07", probes: false, seed: Some(&seed), via_feed: false, merged: false };
 
 fn alpha_medium(cfg: &Cfg) -> Vec<Op> {
     let mut v = alpha(cfg);
@@ -123,7 +123,7 @@ fn medium_part(tier: Tier) -> Part<'static, LockStep> {
     }
 }
 
-static SYS_SWEEP: LockStep = LockStep { property: "C07", probes: false, seed: Some(&super::sweep::fill), via_feed: false };
+static SYS_SWEEP: LockStep = LockStep { property: "C07", probes: false, seed: Some(&super::sweep::fill), via_feed: false, merged: false };
 
 fn alpha_sweep(cfg: &Cfg) -> Vec<Op> {
     // every cell as the cursor position: the extents are relative to it
@@ -144,9 +144,9 @@ fn wide_cfgs(tier: Tier) -> Vec<Cfg> {
     v
 }
 
-static SYS_SPARSE: LockStep = LockStep { property: "C07", probes: false, seed: Some(&super::sweep::fill_sparse), via_feed: false };
+static SYS_SPARSE: LockStep = LockStep { property: "C07", probes: false, seed: Some(&super::sweep::fill_sparse), via_feed: false, merged: false };
 
-static SYS_FEED: LockStep = LockStep { property: "C07", probes: false, seed: None, via_feed: true };
+static SYS_FEED: LockStep = LockStep { property: "C07", probes: false, seed: None, via_feed: true, merged: false };
 
 /// the erase / insert / delete functions delivered through feed() per character, mixed with
 /// screen switches, moves and prints: no call ends between two commands, so anything that is
@@ -192,7 +192,7 @@ fn feed_part(tier: Tier) -> Part<'static, LockStep> {
     }
 }
 
-static SYS_RESIZE: LockStep = LockStep { property: "C07", probes: false, seed: None, via_feed: false };
+static SYS_RESIZE: LockStep = LockStep { property: "C07", probes: false, seed: None, via_feed: false, merged: false };
 
 /// erasing after the screen changed its size: blanks carry the current pen in the columns
 /// and rows the resize added, too (a small alphabet, deeper; widths around a multiple of 8)
